@@ -57,7 +57,7 @@ pub fn check_cli(c: &MCase) -> CheckResult {
     // how the file reaches the tool and where the plaintext goes is part of the case: FILE argument or stdin, -o or stdout
     let sel = c.m.base + c.m.ops.len() + c.rs.gives.len() + c.ws.accepts.len() + c.rs.then; let (via_stdin, to_stdout) = (sel % 2 == 1, (sel / 2) % 2 == 1);
     let sb = crate::cli::Sandbox::new(); if !pass { sb.write("k.txt", cli_keyring(&p, c.pool_seed).as_bytes()); } sb.write("in.ktl", &f);
-    let stale = c.m.ops.len() % 2 == 1 && !to_stdout; let junk = crate::gen::bytes_from(9, 400); if stale { sb.write("out.bin", &junk); }
+    let stale = (c.m.ops.len() % 2 == 1 || (sel / 4) % 2 == 1) && !to_stdout; let junk = crate::gen::bytes_from(9, 400); if stale { sb.write("out.bin", &junk); }
     let rcpt = format!("id{}", base.recipient);
     let mut a: Vec<&str> = if pass { vec!["password", "decrypt"] } else { vec!["decrypt"] };
     if !via_stdin { a.push("in.ktl"); } if !pass { a.extend(["-t", rcpt.as_str(), "-k", "k.txt"]); } if !to_stdout { a.extend(["-o", "out.bin"]); } a.push("--env-pass");
@@ -66,7 +66,10 @@ pub fn check_cli(c: &MCase) -> CheckResult {
     let r = cmd.run();
     let how = format!("{}{}", if via_stdin { "file on stdin" } else { "FILE argument" }, if to_stdout { ", plaintext to stdout" } else { ", -o" });
     crate::ensure!(!r.timed_out && r.signal.is_none() && matches!(r.code, Some(0) | Some(1)), "kestrel decrypt ({}) ended abnormally: {}", how, r.describe());
-    let mut out = if to_stdout { r.stdout.clone() } else { sb.read("out.bin").unwrap_or_default() }; if stale && out == junk { out.clear(); }
+    let on_disk = sb.read("out.bin");
+    // success with -o means the file is there and holds the plaintext - also when the plaintext is empty and something else was there before
+    if r.code == Some(0) && !to_stdout { crate::ensure!(on_disk.is_some(), "`kestrel decrypt` ({}) exited 0 but there is no output file", how); crate::ensure!(!(stale && on_disk.as_deref() == Some(&junk[..])), "`kestrel decrypt` ({}) exited 0 but the output file still holds what was there before ({} bytes)", how, junk.len()); }
+    let mut out = if to_stdout { r.stdout.clone() } else { on_disk.unwrap_or_default() }; if stale && out == junk { out.clear(); }
     let authentic = p.files.iter().find(|a| a.mode == base.mode && a.recipient == base.recipient && a.pw == base.pw && a.masked_eq(&f));
     if r.code == Some(0) {
         let a = authentic.ok_or_else(|| format!("`kestrel {}decrypt` ({}) exited 0 for a file that is not authentic outside counter fields ({} bytes presented, {} bytes written)", if pass { "password " } else { "" }, how, f.len(), out.len()))?;
@@ -122,7 +125,8 @@ pub fn run(ctx: &Ctx) {
     { let mut v = Vec::new(); for sel in [PoolSel::Pass, PoolSel::KeySmall] { let pl = mutate::pool(sel, seed); let n = pl.files[0].bytes.len();
         let mut ms: Vec<Mutant> = mutate::TAILS.iter().map(|t| Mutant { base: 0, ops: vec![mutate::Op::Append { bytes: t.to_vec() }] }).collect();
         ms.extend([n - 1, n - 16, n - 17, pl.files[0].hdr, pl.files[0].hdr + 16].into_iter().map(|len| Mutant { base: 0, ops: vec![mutate::Op::Truncate { len }] }));
-        for m in ms { for k in 0..4usize { let mut c = mk(sel, seed, m.clone(), true); c.rs = RSched { gives: vec![], then: k }; v.push(c); } } }
-      ctx.sse_vec("cli_extensions_and_truncations", "a password-mode and a key-mode file with each of 14 dictionary tails appended and 5 truncations, x {FILE argument, stdin} x {-o, stdout}", v, check_cli); }
+        ms.push(Mutant { base: 0, ops: vec![] }); ms.push(Mutant { base: 0, ops: vec![mutate::Op::SetCounter { rec: 0, val: 5 }] });
+        for m in ms { for k in 0..8usize { let mut c = mk(sel, seed, m.clone(), true); c.rs = RSched { gives: vec![], then: k }; v.push(c); } } }
+      ctx.sse_vec("cli_extensions_and_truncations", "a password-mode and a key-mode file with each of 14 dictionary tails appended and 5 truncations, and the untouched file (the key-mode one has an empty plaintext) x {FILE argument, stdin} x {-o onto nothing, -o onto an older file, stdout}", v, check_cli); }
     ctx.put("accepted_mutants", serde_json::json!(ACCEPTED.load(Ordering::Relaxed)));
 }
